@@ -275,6 +275,8 @@ def pp_concrete(prog, text_, maxtok=40):
             where = (i2.load(loc.obj, loc.path + ('line',)), i2.load(loc.obj, loc.path + ('col',))) if isinstance(loc, Ptr) else None
             raise Terminal('error', (cmodel.fmt_of(i2, a, 1), where))
         it.models['error'] = error
+        PM = c12.pp_models(prog, [])
+        for k_ in ('arrayadd', 'arrayaddbuf', 'arraylast', 'memcmp'): it.models[k_] = PM[k_]
         name = Ptr(it.mkstr(list(b'in.c'), 'name'), (0,))
         it.call(prog.require_func('scanfrom', 'scan.c'), [name, Ptr(Obj('FILE', 'heap'), ())])
         it.call(prog.require_func('ppinit'), [])
@@ -296,7 +298,8 @@ def pp_concrete(prog, text_, maxtok=40):
 def rule_line_positions(chk, prog, tier):
     r = chk.rule('C11.h', 'after #line / a line marker the presumed line numbering continues exactly from the directive, whatever the next line looks like (blank, spliced, comment, another directive): every later token reports file, line and column as C11 6.10.4 prescribes',
                  floor=20, oracle='C11 6.10.4p3: the line following the directive has the given number')
-    heads = [('#line 10\n', 10, None), ('# 20 "foo.c"\n', 20, 'foo.c'), ('#line 7 "g.c"\n', 7, 'g.c'), ('# 5 "h.h" 1 3\n', 5, 'h.h')]
+    heads = [('#line 10\n', 10, None), ('# 20 "foo.c"\n', 20, 'foo.c'), ('#line 7 "g.c"\n', 7, 'g.c'), ('# 5 "h.h" 1 3\n', 5, 'h.h'),
+             ('#line 30 \\\n  "s.c"\n', 30, 's.c'), ('# 40 "c.h" /* a\n b */ 1\n', 40, 'c.h'), ('#line /* x\n\n */ 50\n', 50, None)]
     tails = [('x;', [('x', 0, 1)]), ('\nx;', [('x', 1, 1)]), ('\n\n  x;', [('x', 2, 3)]), ('\\\nx;', [('x', 1, 1)]), ('/* c */ x;', [('x', 0, 9)]), ('/* a\nb */ x;', [('x', 1, 6)]),
              ('// c\nx;', [('x', 1, 1)]), ('#pragma p\nx;', [('x', 1, 1)]), ('  \nx y\nz', [('x', 1, 1), ('y', 1, 3), ('z', 2, 1)]), ('a\\\nb\nx', [('ab', 0, 1), ('x', 2, 1)])]
     for pre in ('', 'int q;\n\n'):
@@ -316,6 +319,19 @@ def rule_line_positions(chk, prog, tier):
                     w_ = (file or 'in.c', line + dl, col)
                     if g != w_: bad.append('%s at %s, expected %s' % (name, g, w_))
                 r.instance(not bad, key, 'pp.c:directive / scan.c:scansetloc', '; '.join(bad))
+    # tokens that come out of a macro argument keep the place where they were written (the invocation)
+    for src, wants in (('#define F(a) a + a\n\n\nF(x);\n', {'x': [(4, 3), (4, 3)]}), ('#define F(a, b) b a\n\n  F(x y,\n    z w);\n', {'x': [(3, 5)], 'y': [(3, 7)], 'z': [(4, 5)], 'w': [(4, 7)]}),
+                       ('#define G(a) [a]\n#define H(b) G(b) b\n\n H(k);\n', {'k': [(4, 4), (4, 4)]}), ('#define N 1\n#define F(a) a\n\nF(  q  N);\n', {'q': [(4, 5)]})):
+        run = pp_concrete(prog, src)
+        key = 'macro-arg-location:%r' % src
+        if run.outcome == 'unsupported': raise AnalysisBroken('%s: %s' % (key, run.detail))
+        if run.outcome != 'return':
+            r.instance(False, key, 'pp.c', 'valid input rejected: %s %s' % (run.outcome, run.detail)); continue
+        got = {}
+        for t in run.value:
+            if t[0] == 'TIDENT': got.setdefault(t[1], []).append((t[3], t[4]))
+        bad = ['%s at %s, written at %s' % (n, got.get(n), w_) for n, w_ in wants.items() if got.get(n) != w_]
+        r.instance(not bad, key, 'pp.c:ctxnext / expandfunc', '; '.join(bad))
     # diagnostics the scanner itself raises
     for src, msg, want in (('int a;\nchar *s = "abc\n";\n', 'newline in string literal', (2, 14)), ("int c = 'a\n';\n", 'newline in character constant', (1, 11)),
                            ('int a;\n\n  @', None, None), ('/* x\n\n', 'EOF in comment', None)):
